@@ -477,6 +477,100 @@ func genCrossKindNames(r *RNG, k int) *Case {
 		Args:  []string{"dev", "spoc"}, Ties: 2 * min(k, 2), Check: "xkind", Aux: map[string]string{"asks": strings.Join(asks, "|")}}
 }
 
+// ASA / IOS raw file with several UNUSED commands, among them pairs (and triples) of DIFFERENT kinds
+// with the SAME name: the warnings `Ignoring unused '<kind> <name>' in raw` must come in one order
+// (ascending by the whole message) in every run — a sort by the name alone would tie (seeded C16-Z1).
+func genRawUnusedSameName(r *RNG, k int, ios bool) *Case {
+	g := newGen(r)
+	var raw strings.Builder
+	var msgs []string
+	warn := func(kind, name string) {
+		msgs = append(msgs, fmt.Sprintf("WARNING>>> Ignoring unused '%s %s' in raw", kind, name))
+	}
+	type mk func(name string, i int)
+	var kinds []mk
+	if ios {
+		kinds = []mk{
+			func(n string, i int) {
+				fmt.Fprintf(&raw, "ip access-list extended %s\n permit ip host 10.7.%d.1 any\n", n, i)
+				warn("ip access-list extended", n)
+			},
+			func(n string, i int) {
+				fmt.Fprintf(&raw, "crypto map %s %d ipsec-isakmp\n set peer 10.8.%d.1\n", n, 10+i, i)
+				warn("crypto map", n)
+			},
+		}
+	} else {
+		kinds = []mk{
+			func(n string, i int) {
+				fmt.Fprintf(&raw, "access-list %s extended permit ip host 10.7.%d.1 any4\n", n, i)
+				warn("access-list", n)
+			},
+			func(n string, i int) {
+				fmt.Fprintf(&raw, "object-group network %s\n network-object host 10.8.%d.1\n", n, i)
+				warn("object-group", n)
+			},
+			func(n string, i int) {
+				fmt.Fprintf(&raw, "group-policy %s internal\n", n)
+				warn("group-policy", n)
+			},
+		}
+	}
+	// k shared names, each used by 2..len(kinds) kinds; plus a few names used once
+	type item struct {
+		kind int
+		name string
+		i    int
+	}
+	var items []item
+	for i := 0; i < k; i++ {
+		n := g.name("x")
+		ks := r.Fork()
+		order := make([]int, len(kinds))
+		for j := range order {
+			order[j] = j
+		}
+		Shuffle(ks, order)
+		cnt := 2
+		if len(kinds) > 2 && r.Chance(40) {
+			cnt = 3
+		}
+		for _, kd := range order[:cnt] {
+			items = append(items, item{kd, n, i})
+		}
+	}
+	for i := r.Intn(3); i > 0; i-- {
+		items = append(items, item{r.Intn(len(kinds)), g.name("y"), 20 + i})
+	}
+	Shuffle(r, items)
+	for _, it := range items {
+		kinds[it.kind](it.name, it.i)
+	}
+	sortStrings(msgs)
+	var entries []string
+	for _, m := range msgs {
+		entries = append(entries, m+";"+m)
+	}
+	base, model := "interface Ethernet0/1\n nameif outside\n", "ASA"
+	if ios {
+		base, model = "interface Ethernet1\n ip address 10.1.1.1 255.255.255.0\n", "IOS"
+	}
+	return &Case{
+		Family: "raw_unused_same_name_" + strings.ToLower(model), Pred: "unused_raw_commands_of_different_kinds_with_the_same_name",
+		Files: map[string]string{"dev": base, "dev.raw": raw.String(), "spoc": base, "spoc.info": `{"model":"` + model + `"}`},
+		Args:  []string{"dev", "spoc"}, Ties: 2 * k, Check: "lines", Aux: map[string]string{"stream": "stderr", "prefix": "WARNING>>> Ignoring unused"},
+		Model: []string{"log\t" + strings.Join(entries, "|")},
+	}
+}
+
+func sortStrings(l []string) {
+	for i := 1; i < len(l); i++ {
+		for j := i; j > 0 && l[j] < l[j-1]; j-- {
+			l[j], l[j-1] = l[j-1], l[j]
+		}
+	}
+}
+
 func wideCorpus() []*Case {
 	base := "interface Ethernet0/1\n nameif outside\n"
 	var l []*Case
@@ -512,6 +606,21 @@ func wideCorpus() []*Case {
 				"spoc.info": asaInfo},
 			Args: []string{"dev", "spoc"}, Ties: 2, Check: "xkind", Aux: map[string]string{"asks": "access-list;g1;0|object-group;g1;"}})
 	}
+	{ // inputs of the seeded change C16-Z1
+		asaRaw := "access-list extra extended permit ip host 10.7.7.7 any4\nobject-group network extra\n network-object host 10.8.8.8\n"
+		m1, m2 := "WARNING>>> Ignoring unused 'access-list extra' in raw", "WARNING>>> Ignoring unused 'object-group extra' in raw"
+		l = append(l, &Case{Family: "raw_unused_same_name_asa", Pred: "unused_raw_commands_of_different_kinds_with_the_same_name", Note: "C16-Z1",
+			Files: map[string]string{"dev": base, "dev.raw": asaRaw, "spoc": base, "spoc.info": asaInfo}, Args: []string{"dev", "spoc"}, Ties: 2,
+			Check: "lines", Aux: map[string]string{"stream": "stderr", "prefix": "WARNING>>> Ignoring unused"},
+			Model: []string{"log\t" + m1 + ";" + m1 + "|" + m2 + ";" + m2}})
+		iosBase := "interface Ethernet1\n ip address 10.1.1.1 255.255.255.0\n"
+		iosRaw := "ip access-list extended X\n permit ip any any\ncrypto map X 10 ipsec-isakmp\n set peer 10.8.8.8\n"
+		i1, i2 := "WARNING>>> Ignoring unused 'crypto map X' in raw", "WARNING>>> Ignoring unused 'ip access-list extended X' in raw"
+		l = append(l, &Case{Family: "raw_unused_same_name_ios", Pred: "unused_raw_commands_of_different_kinds_with_the_same_name", Note: "C16-Z1",
+			Files: map[string]string{"dev": iosBase, "dev.raw": iosRaw, "spoc": iosBase, "spoc.info": `{"model":"IOS"}`}, Args: []string{"dev", "spoc"}, Ties: 2,
+			Check: "lines", Aux: map[string]string{"stream": "stderr", "prefix": "WARNING>>> Ignoring unused"},
+			Model: []string{"log\t" + i1 + ";" + i1 + "|" + i2 + ";" + i2}})
+	}
 	return l
 }
 
@@ -526,7 +635,8 @@ func wideCases(ctx *Ctx, r *RNG) []*Case {
 			genLinuxRouteTies(r.Fork(), n), genCiscoRouteTies(r.Fork(), n), genNSXRuleTies(r.Fork(), n), genGroupDupMembers(r.Fork(), n),
 			genASAMerge(r.Fork(), k), genLinuxMerge(r.Fork(), k), genNSXMerge(r.Fork(), k), genPanosMerge(r.Fork(), k),
 			genTooManyTransforms(r.Fork(), k), genIncompleteACL(r.Fork(), k),
-			genCrossKindNames(r.Fork(), k), genCrossKindNames(r.Fork(), k))
+			genCrossKindNames(r.Fork(), k), genCrossKindNames(r.Fork(), k),
+			genRawUnusedSameName(r.Fork(), 1+r.Intn(3), false), genRawUnusedSameName(r.Fork(), 1+r.Intn(3), true))
 	}
 	// all seeds in both tiers (both parities), without -q: info lines are compared too
 	seeds := seedCases(ctx.Thorough())
